@@ -152,8 +152,73 @@ def w_random(arg):
     return rec
 
 
+def history_strategy():
+    step = st.tuples(st.sampled_from(['cipher', 'cipher', 'hash', 'salt', 'count', 'spec', 'pass', 'reparse', 'same']), st.integers(0, 1000))
+    return st.fixed_dictionaries({'kind': st.just('history'), 'steps': st.lists(step.map(list), min_size=2, max_size=8)})
+
+
+def run_history(rec, c):
+    """one String2Key object lives through a sequence of in-place edits (the way protect(), the SKESK builder and a re-parse reuse it);
+    after every edit the derived key must be the RFC value for the parameters the object holds *now*"""
+    from pgpy.packet.fields import String2Key
+    cur = {'spec': 3, 'hash': 8, 'cipher': 7, 'salt': b'\x01\x02\x03\x04\x05\x06\x07\x08', 'count': 4, 'pw': b'history pw'}
+    s = String2Key()
+    s.usage = 255
+    s.encalg, s.specifier, s.halg, s.salt, s.count = cur['cipher'], cur['spec'], cur['hash'], bytearray(cur['salt']), cur['count']
+    names = []
+    for n, (what, v) in enumerate(c['steps']):
+        names.append(what)
+        if what == 'cipher':
+            cur['cipher'] = CIPHERS[v % len(CIPHERS)]
+            s.encalg = cur['cipher']
+        elif what == 'hash':
+            cur['hash'] = HASHES[v % len(HASHES)]
+            s.halg = cur['hash']
+        elif what == 'salt':
+            cur['salt'] = bytes((v + i) & 0xFF for i in range(8))
+            s.salt = bytearray(cur['salt'])
+        elif what == 'count':
+            cur['count'] = v % 40
+            s.count = cur['count']
+        elif what == 'spec':
+            cur['spec'] = [0, 1, 3][v % 3]
+            s.specifier = cur['spec']
+            if cur['spec'] >= 1:
+                s.salt = bytearray(cur['salt'])
+            if cur['spec'] == 3:
+                s.count = cur['count']
+        elif what == 'pass':
+            cur['pw'] = [b'history pw', b'other', b'history pw2', 'pässwörd'.encode()][v % 4]
+        elif what == 'reparse':
+            # a stored specifier with other parameters is parsed into the same object
+            cur['cipher'], cur['hash'] = CIPHERS[v % len(CIPHERS)], HASHES[(v // 7) % len(HASHES)]
+            raw = bytes([255, cur['cipher'], cur['spec'], cur['hash']]) + (cur['salt'] if cur['spec'] >= 1 else b'') + (bytes([cur['count']]) if cur['spec'] == 3 else b'')
+            s.parse(bytearray(raw), iv=False)
+        kind = {0: 'simple', 1: 'salted', 3: 'iterated'}[cur['spec']]
+        want = rs2k.derive(rs2k.Spec(kind, cur['hash'], cur['salt'] if cur['spec'] else b'', cur['count'] if cur['spec'] == 3 else None), cur['pw'], rsym.KEYLEN[cur['cipher']])
+        try:
+            got = bytes(s.derive_key(cur['pw'].decode('utf-8')))
+        except Exception as e:   # noqa
+            rec.finding('derive-history', 'exception/' + harness.exc_key(e), c, 'step %d %s: %r' % (n, what, e))
+            break
+        if got != want:
+            rec.finding('derive-history', 'stale-after-' + what, c, 'step %d (%s): got %s want %s' % (n, what, got.hex(), want.hex()))
+            break
+    rec.case(('history',) + tuple(tuple(x) for x in c['steps']), len(set(names)) >= 2, ['history/len%d' % len(names)] + ['history/edit-' + x for x in set(names)],
+             {'kind': 'history', 'edits': names})
+
+
+def w_history(arg):
+    seed, idx, n, bsec = arg
+    rec = harness.Rec()
+    harness.run_given(history_strategy(), lambda c: run_history(rec, c), harness.derive_seed('C12h', seed, idx), n, harness.Budget(bsec), rec)
+    return rec
+
+
 def run(tier, seed):
     tasks = [('w_matrix', (p, 8)) for p in range(8)]
+    for i in range(4):
+        tasks.append(('w_history', (seed, i, 150 if tier == 'quick' else 3000, 60 if tier == 'quick' else 600)))
     combos = [(2, 9), (8, 9)] if tier == 'quick' else [(h, c) for h in HASHES for c in (7, 8, 9)]
     pws = [b'pw', b'a much longer passphrase that exceeds sixty-four octets in length, for sure!!', b'']
     for h, c in combos:
@@ -176,6 +241,9 @@ def dispatch(task):
 
 def replay(case):
     rec = harness.Rec()
+    if case.get('kind') == 'history':
+        run_history(rec, case)
+        return [(f['clause'], f['cause'], f['detail']) for f in rec.findings]
     sid = {'simple': 0, 'salted': 1, 'iterated': 3}[case['spec']]
     one(rec, case['spec'], sid, case['hash'], case['cipher'], bytes.fromhex(case['salt']), case['count'], bytes.fromhex(case['pass']), case['ptype'])
     return [(f['clause'], f['cause'], f['detail']) for f in rec.findings]
